@@ -19,6 +19,10 @@ import (
 //go:embed ref/*.txt
 var refFS embed.FS
 
+// coarseArgs: for the loop-free path tables, call arguments and the returned offset are abstracted completely (which
+// temporary carries a position differs between spellings); the table keeps verdicts, states, callee / receiver
+// names and the cells stored.
+var coarseArgs bool
 
 func fsmSignature(r *fsmResult) []string {
 	// names of the loop-carried locals (keys of Locals), to be abstracted
@@ -68,14 +72,27 @@ func fsmSignature(r *fsmResult) []string {
 	add := func(t fsmTrans, post bool) {
 		var calls, stores []string
 		for _, cl := range t.Calls {
-			if strings.Contains(cl, "(") { // calls rendered with arguments: field actions
-				calls = append(calls, abs(cl))
+			if k := strings.Index(cl, "("); k >= 0 { // calls rendered with arguments: field actions
+				// the receiver path (field names) is kept, the arguments are abstracted
+				if coarseArgs {
+					calls = append(calls, cl[:k]+"()")
+				} else {
+					calls = append(calls, cl[:k]+abs(cl[k:]))
+				}
 			} else {
 				calls = append(calls, cl)
 			}
 		}
 		for _, st := range t.Stores {
-			stores = append(stores, abs(st))
+			if k := strings.Index(st, "="); k >= 0 {
+				if coarseArgs {
+					stores = append(stores, st[:k])
+				} else {
+					stores = append(stores, st[:k]+abs(st[k:])) // cell name kept, stored value abstracted
+				}
+			} else {
+				stores = append(stores, abs(st))
+			}
 		}
 		idx := ""
 		if v, ok := t.Locals["i"]; ok {
@@ -85,6 +102,9 @@ func fsmSignature(r *fsmResult) []string {
 		kind := "step"
 		if t.Exit == "return" {
 			kind = "return " + vsStr(t.Verd) + " offs=" + abs(t.RetOffs)
+			if coarseArgs {
+				kind = "return " + vsStr(t.Verd)
+			}
 		}
 		if post {
 			kind = "exhausted " + kind
@@ -193,4 +213,73 @@ func fsmRefRule(c *Ctx, rule, fn string) {
 		}
 	}
 	c.check(len(missing) == 0 && len(extra) == 0, rule, fn+":automaton", token.NoPos, fmt.Sprintf("the extracted automaton of %s (%d rows: state x byte class -> next state / exit, verdicts, field actions, returned offset) equals the reviewed reference table; %d missing, %d extra", fn, len(got), len(missing), len(extra)))
+}
+
+// pathRefRule: the same for the loop-free state functions (first line, whole message): for each state the set of
+// paths to a return - verdict set, returned offset, state left in the object, field actions - against ref/<fn>.txt.
+func pathRefRule(c *Ctx, rule, fn, prefix string) {
+	got := pathSignature(c, fn, prefix)
+	if got == nil {
+		c.fail(rule, fn+":paths", token.NoPos, "paths could not be enumerated")
+		return
+	}
+	data, err := refFS.ReadFile("ref/" + fn + ".txt")
+	if err != nil {
+		c.fail(rule, fn+":reference", token.NoPos, "no reference table")
+		return
+	}
+	want := strings.Split(strings.TrimRight(string(data), "\n"), "\n")
+	ws, gs := map[string]bool{}, map[string]bool{}
+	for _, l := range want {
+		ws[l] = true
+	}
+	for _, l := range got {
+		gs[l] = true
+	}
+	nm, ne := 0, 0
+	for _, l := range want {
+		if !gs[l] {
+			nm++
+			if nm <= 4 {
+				c.fail(rule, fmt.Sprintf("%s:row-missing#%d", fn, nm), token.NoPos, "the reviewed decision table has this row, the tree does not: "+l)
+			}
+		}
+	}
+	for _, l := range got {
+		if !ws[l] {
+			ne++
+			if ne <= 4 {
+				c.fail(rule, fmt.Sprintf("%s:row-extra#%d", fn, ne), token.NoPos, "the tree's decision table has a row the reviewed one does not: "+l)
+			}
+		}
+	}
+	c.check(nm == 0 && ne == 0, rule, fn+":decision-table", token.NoPos, fmt.Sprintf("the per-state path table of %s (%d rows: state -> verdicts, returned offset, state left, field actions) equals the reviewed reference table; %d missing, %d extra", fn, len(got), nm, ne))
+}
+
+func pathSignature(c *Ctx, fn, prefix string) []string {
+	f := c.SFuncs[fn]
+	if f == nil {
+		return nil
+	}
+	sp := fsmSpec{fn: f, stateFld: "state", constName: stateConstsOf(c, fn, prefix)}
+	e := newErrAnalysis(c.Prog)
+	res := &fsmResult{spec: sp}
+	var ks []int64
+	for k := range sp.constName {
+		ks = append(ks, k)
+	}
+	sort.Slice(ks, func(i, j int) bool { return ks[i] < ks[j] })
+	for _, k := range ks {
+		for _, t := range enumPaths(c, e, sp, k) {
+			t.From = k
+			t.Exit = "return"
+			res.post = append(res.post, t)
+		}
+	}
+	if len(res.post) == 0 {
+		return nil
+	}
+	coarseArgs = true
+	defer func() { coarseArgs = false }()
+	return fsmSignature(res)
 }
